@@ -78,7 +78,9 @@ type Job struct {
 	Models     map[string]string // callee -> model function (pkgpath.Name)
 	Trace      bool
 	SolverLog  string
-	OneShotMin int // context size (asserted lines) from which queries go to a fresh solver process; <0 never
+	FSModel    bool // enable the in-memory temp-file/gob model
+	MaxFaults  int  // number of injected I/O faults allowed per path
+	OneShotMin int  // context size (asserted lines) from which queries go to a fresh solver process; <0 never
 }
 
 type Result struct {
@@ -328,6 +330,9 @@ func (i *interpreter) runPath(fn *ssa.Function, job *Job) (kind, msg string) {
 		i.sched = newScheduler(i, job.Sched == "sym", job.Preempt)
 		i.gstate = i.sched.gs[0]
 	}
+	if job.FSModel {
+		i.fs = newFS(job.MaxFaults)
+	}
 	defer func() {
 		if i.sched != nil {
 			i.sched.killAll()
@@ -344,6 +349,9 @@ func (i *interpreter) runPath(fn *ssa.Function, job *Job) (kind, msg string) {
 			kind, msg = p.kind, p.msg
 		case unsupportedErr:
 			kind, msg = "unsupported", p.msg
+			if os.Getenv("GOSYM_DEBUG") != "" {
+				msg += "\n" + i.stack() + string(debug.Stack())
+			}
 		case regionAbort:
 			kind, msg = "unsupported", "region abort escaped: "+p.why
 		case targetPanic:
